@@ -194,13 +194,19 @@ class Decimal(SimpleModel):
 
     @staticmethod
     def validate_native(cls, value):
-        return SimpleModel.validate_native(cls, value) and (
-            value is None or (
-                value >  cls.Attributes.gt and
-                value >= cls.Attributes.ge and
-                value <  cls.Attributes.lt and
-                value <= cls.Attributes.le
-            ))
+        try:
+            return SimpleModel.validate_native(cls, value) and (
+                value is None or (
+                    value >  cls.Attributes.gt and
+                    value >= cls.Attributes.ge and
+                    value <  cls.Attributes.lt and
+                    value <= cls.Attributes.le
+                ))
+
+        except (decimal.InvalidOperation, TypeError):
+            # NaN can't be ordered against the Decimal bounds, neither can
+            # values of non-numeric types (e.g. a timestamp parsed by yaml).
+            return False
 
 
 class Double(Decimal):
